@@ -131,6 +131,31 @@ def judge_required(case) -> Outcome:
     if rv != sorted(set(D) | set(K)):
         classify(rv, set(D) | set(K), "formula required_variables")
         return out
+    # a formula edited in place reports the variables of the terms it holds now
+    try:
+        from formulaic.formula import SimpleFormula
+
+        g = Formula(f)
+        target = g.rhs if case["two"] else g
+        if isinstance(target, SimpleFormula) and len(target) >= 2:
+            _ = target.required_variables
+            how = case["seed"] % 4
+            k = case["seed"] % len(target)
+            if how == 0:
+                del target[k]
+            elif how == 1:
+                target.pop()
+            elif how == 2:
+                target.remove(target[k])
+            else:
+                del target[k:]
+            fresh = SimpleFormula(list(target), _ordering=target.ordering)
+            if set(target.required_variables) != set(fresh.required_variables):
+                out.fail("c17.required_stale_after_edit", f"{f!r}: after removing terms in place required_variables is {sorted(target.required_variables)}, a formula built from the remaining terms reports {sorted(fresh.required_variables)}")
+            out.see("in_place_edits_checked")
+    except Exception as e:  # noqa: BLE001
+        if not k4:
+            out.fail("c17.required_variables_raised", f"{f!r} after an in-place edit: {type(e).__name__}: {str(e)[:120]}")
     try:
         with quiet():
             mm = model_matrix(f, df, context=ctx)
